@@ -1,7 +1,9 @@
 (* Property C18 — socket-layer UDP batching and segmentation offload is transparent.
    Only statements, closed by `exact`, with Print Assumptions.  The kernel half
    (kernel_gso_send, train_ok / rx_of) is the stated model of UdpGso/KernelSpec.v. *)
+From Coq Require Import String.
 From WG Require Import Base.Prelude Gen.Constants UdpGso.Model UdpGso.OldModel UdpGso.KernelSpec UdpGso.Proofs.
+From WG Require UdpGso.CoalAst Gen.GsoAst UdpGso.CoalAstProofs.
 Local Open Scope N_scope.
 
 (* The constants the property text names, as the code has them now. *)
@@ -258,3 +260,27 @@ Proof.
       split; vm_compute; [split; [reflexivity|discriminate]|discriminate].
   - split; [intros [|[|t]] H; cbn in *; lia|]. split; vm_compute; reflexivity.
 Qed.
+
+(* THE TIE TO THE SOURCE for the send-side coalescing (translator
+   harness/cmd/gsoast, rerun on every check): Gen.GsoAst.coal_body is the body
+   of coalesceMessages of conn/bind_std.go as a term of the deep-embedded
+   language of UdpGso/CoalAst.v (range loop, base / gsoSize / dgramCnt /
+   endBatch, the six-clause join condition, append within capacity, setGSO).
+   For ALL batches and configurations the interpreted source produces exactly
+   the model's messages, GSO sizes and count, leaves the rest of the pooled
+   vector untouched, never appends beyond a capacity and never indexes out of
+   range; hence what the kernel puts on the wire for the interpreted source is
+   the batch, datagram for datagram, in order. *)
+Theorem C18_source_coalesce_is_the_model : forall c bufs k,
+  (length bufs <= k)%nat ->
+  exists n, UdpGso.CoalAstProofs.run_coal c bufs k =
+            Some (coalesce c bufs ++ repeat UdpGso.CoalAstProofs.blank n, Z.of_nat (length (coalesce c bufs))).
+Proof. exact UdpGso.CoalAstProofs.coalesce_ast_eq. Qed.
+Print Assumptions C18_source_coalesce_is_the_model.
+
+Theorem C18_source_send_transparent : forall c bufs k,
+  (length bufs <= k)%nat -> wf_cfg c -> Forall wf_buf bufs ->
+  exists ms n, UdpGso.CoalAstProofs.run_coal c bufs k = Some (ms, n) /\
+               flat_map kernel_send (firstn (Z.to_nat n) ms) = map b_data bufs.
+Proof. exact UdpGso.CoalAstProofs.coalesce_ast_transparent. Qed.
+Print Assumptions C18_source_send_transparent.
